@@ -7,6 +7,8 @@
      wrapi <i64> <fmt> <1904>               -> canonical data
      sweep <alphabet hex> <len> <prefix hex>-> n0,n1,n2,fnv64 over all strings prefix+w, |w| = len
      ast <wire>                             -> hex|classify|wf|detect            (model only)
+                                               tokens: … W<long>:<ups> aaa/aaaa, R<n>:<ups> g.., Y<long>:<ups> e/ee,
+                                               B<long>:<ups> bb/bbbb
      xlsxm <numfmts> <cellxfs> <1904> <cells>   raw style table through the xlsx model
      xlsxs <customs> <xfs> <1904> <cells>       logical table: encoder + model + spec
      biffs <xls|xlsb> <customs> <xfs> <1904> <cells>
@@ -60,6 +62,10 @@ let token_of (s : string) : token =
   | 'a' -> TAP (ups_of r)
   | 'S' -> TSecFrac (nat_of_int (int_of_string r))
   | 'H' -> TElapsed (el (fld f 0), nat_of_int (int_of_string (fld f 1)), ups_of (fld f 2))
+  | 'W' -> TWeekday (b01 (fld f 0), ups_of (fld f 1))                          (* aaa / aaaa *)
+  | 'R' -> TEra (nat_of_int (int_of_string (fld f 0)), ups_of (fld f 1))       (* g gg ggg *)
+  | 'Y' -> TEraYear (b01 (fld f 0), ups_of (fld f 1))                          (* e / ee *)
+  | 'B' -> TBuddhist (b01 (fld f 0), ups_of (fld f 1))                         (* bb / bbbb *)
   | _ -> failwith "bad token"
 
 let ast_of (s : string) : ast =
@@ -78,13 +84,26 @@ let sweep alphabet len prefix =
   (* number of strings of exactly n more characters *)
   let rec pow b n = if n = 0 then 1 else b * pow b (n - 1) in
   let na = List.length alphabet in
-  let rec go (r : step_result) n =
-    match r with
-    | Return f -> for _ = 1 to pow na n do emit f done
-    | Continue q ->
-      if n = 0 then emit Other
-      else List.iter (fun c -> go (step q c) (n - 1)) alphabet in
-  go (run init prefix) len;
+  (* the scanner looks ahead only to recognise the keyword General: when the alphabet cannot spell
+     "eneral" the look-ahead is always negative and the sweep can extend the state one character
+     at a time; otherwise every string is scanned from the start *)
+  let lower c = let i = int_of_n c in if i >= 65 && i <= 90 then i + 32 else i in
+  let can_general = List.for_all (fun ch -> List.exists (fun c -> lower c = Char.code ch) (alphabet @ prefix))
+      ['e'; 'n'; 'r'; 'a'; 'l'] in
+  if can_general then begin
+    let rec all acc n =
+      if n = 0 then emit (detect (prefix @ List.rev acc))
+      else List.iter (fun c -> all (c :: acc) (n - 1)) alphabet in
+    all [] len
+  end else begin
+    let rec go (r : step_result) n =
+      match r with
+      | Return f -> for _ = 1 to pow na n do emit f done
+      | Continue q ->
+        if n = 0 then emit Other
+        else List.iter (fun c -> go (step q c []) (n - 1)) alphabet in
+    go (run init prefix) len
+  end;
   Printf.sprintf "%d,%d,%d,%Lx" counts.(0) counts.(1) counts.(2) !h
 
 (* ---------- style tables ---------- *)
